@@ -37,10 +37,10 @@ def obligations(tier):
         Ob('fetch_after_arbitrary_fetch', 'ch', '2 segments as 1..2 records, pad 0..1, 1..2 VRs; fetch record i after no fetch / a fetch of any record j',
            ['pIndex.LogicalRecordIndex.get_file_logical_data', 'pFile.FileRead.get_file_logical_data'],
            harness='C01_pfile', func='fetch_after_fetch', timeout=170 if q else 900, parts=8, stubs=['SymFile']),
-        Ob('fetch_offset_length_quick', 'ch', '2 segments (10..12 payload bytes each) as 1..2 records, pad 0..1, 1..2 VRs; every offset 0..11 and length in {-1,0,1,2,3,11,12,13}',
+        Ob('fetch_offset_length_quick', 'ch', '2 segments (10..12 payload bytes each) as 1..2 records, pad 0..1, 1..2 VRs; every offset 0..13 and length -1..13',
            ['pFile.FileRead.get_file_logical_data', 'pIndex.LogicalRecordIndex.get_file_logical_data'],
            harness='C01_pfile', func='fetch_slice_two_segments_q', timeout=260, parts=16, stubs=['SymFile'], classify=_classify, tiers=('quick',)),
         Ob('fetch_offset_length', 'ch', '2 segments as 1..2 records, pad 0..1, 1..2 VRs; every offset 0..24 and length -1..24',
            ['pFile.FileRead.get_file_logical_data', 'pIndex.LogicalRecordIndex.get_file_logical_data'],
-           harness='C01_pfile', func='fetch_slice_two_segments', timeout=2400, parts=16, stubs=['SymFile'], classify=_classify, tiers=('thorough',)),
+           harness='C01_pfile', func='fetch_slice_two_segments', timeout=1200, parts=16, stubs=['SymFile'], classify=_classify, tiers=('thorough',)),
     ]
